@@ -120,6 +120,12 @@ func (r *c18Run) sweepCases() (text, native, ops, simple []*c18Case) {
 				Ops: []c18Op{f, s.then, {Op: "G", Path: s.look}}})
 		}
 	}
+	// --- ops: a wildcard immediately followed by a descent (arrays only: deterministic)
+	wd := jArr(jArr(), jObj("b", jObj("c", jInt(1))))
+	for _, op := range []string{"G", "H", "A", "W", "R"} {
+		ops = append(ops, &c18Case{Family: "ops", Doc: w(wd), Sweep: true, Cell: "wild-desc", Ops: []c18Op{{Op: op, Path: pa(star, desc, k("c"))}}})
+	}
+	ops = append(ops, &c18Case{Family: "ops", Doc: w(wd), Sweep: true, Cell: "wild-desc", Ops: []c18Op{{Op: "S", Path: pa(star, desc, k("c")), Value: "i9"}}})
 	// --- simplify: one Go kind at its boundaries x placement
 	var gvs []*gv
 	gvs = append(gvs, &gv{kind: 'n'}, &gv{kind: 'b', b: true}, &gv{kind: 'b'})
